@@ -27,7 +27,8 @@ EXPLANATION = (
     'trees (shared with C01.1-.5); (C02.10) witness formulas through FormulaParser.tokenize and OperandNode.eval: literals '
     'keep blanks, tabs, line breaks and (un-doubled) quotes, quoted sheet names their characters. (C02.3) additionally '
     'generated tables: 15 argument forms in every position of nested calls, runs of quote characters in string literals; '
-    '(C02.4) the seven error literals tokenized in four contexts.')
+    '(C02.4) the seven error literals tokenized in four contexts.'
+    " (C02.11) sequences of parser calls in one process; (C02.12) the tree a compiled model holds for a cell is the tree of that cell's own text: 36 twins that differ only in the kind of one token (reference / quoted text, number / quoted number, defined name / literal spelt like it, other blanks) side by side in one model with defined names.")
 NOT_DECIDED = ('equivalence of the hand-written state machine and the shunting-yard argument counting '
                'with the formula grammar for all texts (needs execution against a reference parser)')
 TRUSTED = ['token kinds of the grammar transcribed from the property statement']
